@@ -76,6 +76,14 @@ def choose_plan(rng, code, cls, distinct=True):
     p = {"code": code, "insize": insize, "chunk": chunk, "dirs": dirs, "rgb": rgb, "pixel": pixel,
          "ext": ext, "out_dtype": out_dtype, "flat": rng.random() < 0.4, "gzip": rng.random() < 0.6,
          "cls": cls, "mode": "inprocess"}
+    r = rng.random()
+    if r < 0.15:
+        # the function API without an options dictionary (default storage options)
+        p.update(mode="api", flat=False, gzip=True)
+    if pixel == "uint16" and not rgb and rng.random() < 0.6:
+        p["mixpix"] = True          # 8-bit and 16-bit slices in one stack
+    if nsl >= 2 and rng.random() < 0.08:
+        p["short"] = True           # invalid stack: must be refused, not half converted
     if nsl >= 2 and rng.random() < 0.25:
         # empty (all-black) slices: all but one, so that whole chunks hold only zeros
         keep = rng.randrange(nsl)
@@ -88,12 +96,14 @@ def sig_of(p, res, clause):
             "slice_axis_inverted": p["code"][2] in "LPI",
             "slices_vs_depth": p["cls"], "channels": p["dirs"] * (3 if p["rgb"] else 1),
             "rgb": p["rgb"], "pixel": p["pixel"], "ext": p["ext"], "out_dtype": p["out_dtype"],
-            "sharded": bool(p.get("sharding")), "exc": res.get("exc", ""), "where": res.get("where", "")}
+            "sharded": bool(p.get("sharding")), "exc": res.get("exc", ""), "where": res.get("where", ""),
+            "entry": p["mode"], "mixed_pixel_types": bool(p.get("mixpix")), "invalid_stack": bool(p.get("short"))}
 
 
 def plan_key(p):
     return json.dumps([p["code"], p["insize"], p["chunk"], p["dirs"], p["rgb"], p["pixel"], p["ext"],
-                       p["out_dtype"], p["flat"], p["gzip"], p.get("sharding")])
+                       p["out_dtype"], p["flat"], p["gzip"], p.get("sharding"), p["mode"],
+                       bool(p.get("mixpix")), bool(p.get("short"))])
 
 
 def execute(work, plans):
@@ -103,7 +113,9 @@ def execute(work, plans):
     with ThreadPoolExecutor(max_workers=12) as ex:
         futs = {k: ex.submit(sl.convert_subprocess, prepared[k][1], TIMEOUT) for k in sub}
         for k, (p, pd) in enumerate(prepared):
-            if p["mode"] != "subprocess":
+            if p["mode"] == "api":
+                results[k] = sl.convert_api(pd, TIMEOUT)
+            elif p["mode"] != "subprocess":
                 results[k] = sl.convert_inprocess(pd, TIMEOUT)
         for k, f in futs.items():
             results[k] = f.result()
